@@ -444,7 +444,19 @@ pub fn generate(seed: u64, index: usize, cfg: &GenCfg) -> Scenario {
       if !mixed { hist.push(Step::Probe { rev: false }); }
     } else if mixed || roll < 75 {
       let roots = pick_roots(&mut rng);
-      hist.push(Step::Session { acts: roots.iter().map(|t| Act::Req { t: *t }).collect() });
+      let mut acts: Vec<Act> = roots.iter().map(|t| Act::Req { t: *t }).collect();
+      // sometimes a file changes while the session is open and more is required afterwards (at most once per session)
+      let files: Vec<i64> = (1..=nr as i64).filter(|r| rtype[(*r - 1) as usize] == 3).collect();
+      if cfg.fixed.is_none() && !files.is_empty() && rng.gen_bool(0.4) {
+        let r = *files.choose(&mut rng).unwrap();
+        let pos = rng.gen_range(1..=acts.len());
+        acts.insert(pos, Act::Set { r, v: rng.gen_range(-1..nv) });
+        dirty.insert(r);
+        let again = roots[rng.gen_range(0..roots.len())];
+        acts.push(Act::Req { t: again });
+        if rng.gen_bool(0.5) { acts.push(Act::Req { t: rng.gen_range(1..=nt as i64) }); }
+      }
+      hist.push(Step::Session { acts });
       last_roots = roots;
       if !mixed { hist.push(Step::Probe { rev: rng.gen_bool(0.5) }); }
     } else {
